@@ -17,6 +17,8 @@ import (
 	"kvassverif/sidecarsim"
 
 	"tkestack.io/kvass/pkg/prom"
+	"tkestack.io/kvass/pkg/shard"
+	"tkestack.io/kvass/pkg/target"
 )
 
 func hashOf(text string) (string, error) {
@@ -53,7 +55,78 @@ var idxRe = regexp.MustCompile(`\[\]`)
 // fieldClass turns a leaf path into a categorical field name.
 func fieldClass(p string) string { return strings.TrimPrefix(p, ".") }
 
+// c16RefusedPush: a configuration push that a component of the sidecar refuses (its Prometheus does not
+// reload). Whatever hash the sidecar reports afterwards - that is what the coordinator judges "in sync" on -
+// must be the hash of the configuration its proxy really works with (seen through a job's metric relabel
+// rule, which differs between the two configurations).
+func c16RefusedPush(tp *core.Tape, e *core.Env) {
+	n, err := StartNode(e, "c16r", false, NodeConfig)
+	if err != nil {
+		e.Undecided("cannot start sidecar: %v", err)
+		return
+	}
+	defer n.Cleanup()
+	if err := n.SC.PostTargets(&shard.UpdateTargetsRequest{Targets: map[string][]*target.Target{"j0": {MkTarget(101, "j0", "", 5, 5)}}}); err != nil {
+		e.Undecided("POST targets: %v", err)
+		return
+	}
+	cfgB := strings.Replace(NodeConfig, "- job_name: j0\n", "- job_name: j0\n  metric_relabel_configs:\n  - source_labels: [__name__]\n    regex: drop_.*\n    action: drop\n", 1)
+	hA, _ := hashOf(NodeConfig)
+	hB, errB := hashOf(cfgB)
+	if errB != nil || hA == hB {
+		e.Undecided("the two configurations do not differ: %v", errB)
+		return
+	}
+	refused := tp.Bool("push_is_refused", 3, 4)
+	if refused {
+		n.SC.ReloadErr = fmt.Errorf("prometheus reload failed (injected)")
+	}
+	perr := n.SC.PushConfig(cfgB)
+	n.SC.ReloadErr = nil
+	if refused {
+		e.Fault("prom_reload_fails")
+	}
+	rt, err := n.SC.GetRuntime()
+	if err != nil {
+		e.Undecided("runtimeinfo: %v", err)
+		return
+	}
+	n.Targets.Set(TargetHost(101), &sidecarsim.TargetSpec{Payload: []byte("drop_x 1\ndrop_z 1\nkeep_y 1\n")})
+	n.ScrapeRec(101, "j0")
+	st, err := n.SC.GetStatus()
+	if err != nil || st[101] == nil {
+		e.Undecided("status after the scrape: %v", err)
+		return
+	}
+	runs := "neither"
+	switch st[101].Series {
+	case 3:
+		runs = "A"
+	case 1:
+		runs = "B"
+	}
+	reports := "neither"
+	switch rt.ConfigHash {
+	case hA:
+		reports = "A"
+	case hB:
+		reports = "B"
+	}
+	e.Probe("refused_push_hash_vs_behaviour")
+	e.Key("refused-push", fmt.Sprintf("refused=%v", perr != nil), "reports="+reports)
+	if reports != runs {
+		e.Violate("reports-hash-of-a-configuration-it-does-not-run", fmt.Sprintf("push-refused=%v", perr != nil),
+			"after pushing configuration B (refused: %v) the sidecar reports the hash of %s but its proxy applies the metric relabel rules of %s (kept %d of 3 samples)", perr != nil, reports, runs, st[101].Series)
+	}
+}
+
 func c16Run(tp *core.Tape, e *core.Env) {
+	if tp.Bool("refused_push_scenario", 1, 6) {
+		if problem := sidecarsim.InBubble(e.T, func() { c16RefusedPush(tp, e) }); problem != "" {
+			e.Undecided("node engine (C16): %s", problem)
+		}
+		return
+	}
 	dir := filepath.Join(e.Scratch, fmt.Sprintf("c16-%d", e.RunIndex))
 	_ = os.RemoveAll(dir)
 	_ = os.MkdirAll(dir, 0o755)
